@@ -145,7 +145,7 @@ func runVariants(c *Ctx, r *Report) {
 		r.Extra = map[string]interface{}{}
 	}
 	r.Extra["variants"] = map[string]interface{}{
-		"what": "checker self-validation (thorough tier): seeded property-breaking changes for this property must be reported, behaviour-preserving refactorings must not; never part of the verdict on /repo",
+		"what":    "checker self-validation (thorough tier): seeded property-breaking changes for this property must be reported, behaviour-preserving refactorings must not; never part of the verdict on /repo",
 		"summary": count, "results": results,
 	}
 	fmt.Printf("%s variants: %v\n", r.Prop, count)
